@@ -87,5 +87,18 @@ func VerifC10_Lifecycle() {
 	time.Sleep(4 * time.Second) // well past the initial delay
 	deliver()
 	verifAssert("silent.after.stop", calls == after)
+	// a stopped prober that is started again (the relaunch of its process) works again
+	if verifChoose(2) == 1 {
+		verifShape("started.again")
+		p.Start() // REAL code
+		time.Sleep(time.Duration(delay)*time.Second + 1500*time.Millisecond)
+		deliver()
+		verifAssert("restarted.prober.delivers", calls > after)
+		p.Stop() // REAL code
+		final := calls
+		time.Sleep(2 * time.Second)
+		deliver()
+		verifAssert("silent.after.second.stop", calls == final)
+	}
 	verifReach("end")
 }
